@@ -128,7 +128,48 @@ def oracle(ctx, n):
             return
 
 
+def stored(ctx, n):
+    """A Length that lives in a database: set()/change() must register the object, a reader sees the
+    committed value, and two connections changing it concurrently end with old + a + b in both orders."""
+    from BTrees.Length import Length
+    from harness.minijar import Storage, Jar
+    rng = ctx.rng
+    for i in range(n):
+        old, a, b = rint(rng), rint(rng), rint(rng)
+        bad = None
+        for order in ((1, 2), (2, 1)):
+            st = Storage()
+            j0 = Jar(st)
+            L = Length(old)
+            oid = j0.add(L)
+            j0.commit()
+            jars = {1: Jar(st), 2: Jar(st)}
+            objs = {k: jars[k].get(oid) for k in jars}
+            if rng.random() < 0.5:
+                objs[1].change(a)
+            else:
+                objs[1].set(old + a)
+            objs[2].change(b)
+            for k in (1, 2):
+                if (a if k == 1 else b) != 0 and not any(o is objs[k] for o in jars[k].registered):
+                    bad = "change-not-registered"
+            try:
+                jars[order[0]].commit()
+                jars[order[1]].commit()
+            except Exception as e:  # noqa
+                bad = bad or "commit-raises-" + type(e).__name__
+            got = Jar(st).get(oid)()
+            if bad is None and got != old + a + b:
+                bad = "stored-value-wrong"
+            ctx.count(("s", old, a, b, order), nontrivial=(a != 0 and b != 0))
+            if bad:
+                ctx.oracle_failure("Length:stored:" + bad, "Length stored in a database, old=%d, connection 1 adds %d, connection 2 adds %d, commit order %r: %s (a reader sees %r, expected %d)" % (
+                    old, a, b, order, bad, got, old + a + b), {"old": old, "a": a, "b": b, "order": list(order), "stored": True})
+                return
+
+
 def run(ctx):
+    stored(ctx, ctx.n(300, 6000))
     n = ctx.n(800, 20000)
     cases, terms = [], []
     for i in range(n):
@@ -157,6 +198,9 @@ def run(ctx):
 def replay(ctx, data):
     from BTrees.Length import Length
     r = data["replay"]
+    if r.get("stored"):
+        print(r)
+        return 0
     if "old" in r:
         got = Length(r["v"])._p_resolveConflict(r["old"], r["old"] + r["a"], r["old"] + r["b"])
         print("resolve ->", got, "expected", r["old"] + r["a"] + r["b"])
